@@ -12,7 +12,10 @@ use super::{
 };
 
 // Type aliases for complex pattern matching types (using type IDs)
-type PatternAnalysisResult = (Vec<(String, usize)>, Vec<BindingSet>, usize);
+/// (bindings, binding sets, result type, matched type). The result type is the matched portion
+/// widened with nil when the match can fail at runtime; the matched type is that portion alone
+/// (the values the pattern accepts), which is what complement narrowing must subtract.
+type PatternAnalysisResult = (Vec<(String, usize)>, Vec<BindingSet>, usize, usize);
 type TupleMatchResult = Vec<(usize, Vec<(usize, usize)>)>;
 // Field info plus how to rebuild a variant's narrowed type: the variant's fields, the matched
 // field indices, and the optional tuple name (`None` for a partial match, which keeps the input type).
@@ -152,7 +155,8 @@ pub fn analyze_pattern(
 
     if binding_sets.is_empty() {
         // Won't match - return never type (empty union)
-        return Ok((Vec::new(), Vec::new(), program.never()));
+        let never = program.never();
+        return Ok((Vec::new(), Vec::new(), never, never));
     }
 
     // Check if all binding sets have requirements (might match) or some have none (will match)
@@ -184,7 +188,7 @@ pub fn analyze_pattern(
         union_type_ids(program, vec![nil_id, narrowed_type_id])
     };
 
-    Ok((all_bindings, binding_sets, result_type_id))
+    Ok((all_bindings, binding_sets, result_type_id, narrowed_type_id))
 }
 
 /// Generate bytecode for pattern matching
